@@ -1,6 +1,6 @@
 (* Entry point evaluated by the harness-written case files for C10. *)
 From Coq Require Import ZArith NArith List.
-From Verif Require Import Base.Check Model.Nat Model.NatSpec.
+From Verif Require Import Base.Check Model.Nat Model.NatSpec Model.NatK Model.NatKSpec.
 Import ListNotations.
 
 (* short constructor names for the case files (record notation is slow to elaborate) *)
